@@ -29,14 +29,8 @@ func (st *State) clockNow() *Term {
 		st.assume(tt.Cmp(OpSLt, st.now, tt.Const(1<<62, 64)))
 		return st.now
 	}
-	if st.clockFrozen {
-		return st.now
-	}
-	n := st.freshInternal("now", 64)
-	st.assume(tt.Cmp(OpSLe, st.now, n))
-	st.assume(tt.Cmp(OpSLt, n, tt.Const(1<<62, 64)))
-	st.now = n
-	return n
+	// the clock advances only through timer firings, time.Sleep and vrtClockAdvance
+	return st.now
 }
 
 func init() {
@@ -576,6 +570,13 @@ func init() {
 		type rec struct {
 			s StrV
 			r *Term
+		}
+		if cs, ok := st.concreteString(s); ok {
+			h := uint64(1469598103934665603)
+			for i := 0; i < len(cs); i++ {
+				h = (h ^ uint64(cs[i])) * 1099511628211
+			}
+			return st.tt.Const(h, 64)
 		}
 		prev, _ := st.kv["maphash"].([]rec)
 		r := st.freshInternal("maphash", 64)
